@@ -281,12 +281,16 @@ class AsyncIOClient(ABC):
         await self._update_state(State.CLOSED)
         if self.writer:
             self.writer.close()
+        # close() may be called by one of the callbacks, i.e. from inside the receive loop task (status callback) or the
+        # process queue task (receive callback). Cancelling the task we are running in would abort close() itself half way;
+        # that task ends on its own because the state is CLOSED.
+        current_task = asyncio.current_task()
         # Cancel the receive loop task if it exists
-        if self._receive_task and not self._receive_task.done():
+        if self._receive_task and not self._receive_task.done() and self._receive_task is not current_task:
             self._receive_task.cancel()
             await asyncio.sleep(0.01)  # Allow cancellation to propagate
         # Cancel the process queue task if it exists
-        if self._process_queue_task and not self._process_queue_task.done():
+        if self._process_queue_task and not self._process_queue_task.done() and self._process_queue_task is not current_task:
             self._process_queue_task.cancel()
             await asyncio.sleep(0.01)  # Allow cancellation to propagate
         # the client is finished for good: flush and close the decoder's dump file (if any)
